@@ -265,6 +265,27 @@ pub fn families(thorough: bool, seed: u64) -> FamilyResult {
         let case = BuildCase { spec: GraphSpec { fns, edges, batches: vec![] }, fail_pos: 0, mutation: None, labels: vec![], walks: vec![] };
         cases.push((1u64 << (l / 2).min(62), case, format!("two chains of {l} with same-level write conflicts, insertion order alternating per level")));
     }
+    // a rejected call in the sequence: the multi-path region is declared, then an edge
+    // from its last function back to a function that already has a predecessor is
+    // requested (and rejected: it would close a cycle), then the graph is built
+    for (w, l) in [(2usize, 12usize), (2, 24), (3, 12), (3, 20), (2, 40)] {
+        let n = w * l;
+        for access in [true, false] {
+            let mut c = instance(&mut rng, n, layered(w, l), access);
+            // logical node w (first function of the second layer) has predecessors;
+            // find the labels through the first / last edges of the shuffled list
+            let tos: Vec<usize> = c.spec.edges.iter().map(|e| e.1).collect();
+            let froms: Vec<usize> = c.spec.edges.iter().map(|e| e.0).collect();
+            // a sink (never a source) and a function with a predecessor
+            let sink = tos.iter().copied().find(|t| !froms.contains(t));
+            let with_pred = tos.iter().copied().find(|t| froms.contains(t));
+            if let (Some(sink), Some(mid)) = (sink, with_pred) {
+                c.spec.edges.push((sink, mid, Kind::Logic));
+            }
+            let ue = user_edges(n, &c.spec.flat_calls()).edges;
+            cases.push((root_path_count(n, &ue), c, format!("layered width={w} layers={l} + one rejected back edge into a function that has a predecessor")));
+        }
+    }
     // dense random DAGs
     let n_dense = if thorough { 60 } else { 20 };
     for k in 0..n_dense {
